@@ -2097,9 +2097,17 @@ where
                     M::combine_mut(&mut output, out, |c, out| C::write(c, idx, out));
                 }
                 Ok(None) => {
-                    // let span = inp.span_since(&before);
-                    // We don't add an alt here because we assume the inner parser will. Is this safe to assume?
-                    // inp.add_alt([ExpectedMoreElements(Some(C::LEN - idx))], None, span);
+                    // The inner parser finished early (and so may not have generated an error): more elements
+                    // were expected here
+                    let before = inp.save();
+                    let found = inp.next_maybe_inner();
+                    let span = inp.span_since(before.cursor());
+                    inp.rewind(before);
+                    inp.add_alt(
+                        [DefaultExpected::SomethingElse],
+                        found.map(|f| f.into()),
+                        span,
+                    );
                     // SAFETY: We're guaranteed to have initialized up to `idx` values
                     M::map(output, |mut output| unsafe {
                         C::drop_before(&mut output, idx)
